@@ -27,6 +27,7 @@ pub fn run(args: &[String]) {
         Some("anchors") => anchors_cmd(args),
         Some("kernoff-bytes") => kernoff_bytes_cmd(args),
         Some("deep-chain") => deep_chain_cmd(args),
+        Some("vf2-probe") => vf2_probe_cmd(),
         _ => {
             eprintln!("c07 cases|font|one|kernoff-corpus|deep-chain");
             std::process::exit(2)
@@ -826,6 +827,32 @@ fn kernoff_bytes_cmd(args: &[String]) {
             println!("kernoff {} off={} on={}", if ka == kb { "ok" } else { "FAIL" }, shp::fmt_g(&a), shp::fmt_g(&b));
         }
         _ => println!("kernoff panic"),
+    }
+}
+
+/// Probe of the known finding `pairpos_second_glyph_by_value_not_format`: PairPos format 1 whose ValueFormat2 is
+/// non-zero (0x000F) while the second records of both pairs are all zero.  OpenType ("if valueFormat2 is 0 the
+/// second glyph is the next first glyph") and HarfBuzz (`if (len2) pos++`) decide on the FORMAT: in A B C the pair
+/// (A,B) consumes B and (B,C) is not applied.  The library decides on the record's VALUES (ttf-parser does not
+/// expose the format): (B,C) is applied too.  Prints `vf2 opentype|by-value|other <advances>`.
+fn vf2_probe_cmd() {
+    let mut spec = FontSpec::basic(4);
+    spec.hadv = vec![500, 600, 600, 600];
+    let sub = PosSubtable::Pair1 {
+        coverage: Coverage::Glyphs(vec![1, 2]),
+        pair_sets: vec![vec![(2, ValueRecord::xadv(-50), ValueRecord::ZERO)], vec![(3, ValueRecord::xadv(-100), ValueRecord::ZERO)]],
+        vf: ValueFormat::All,
+    };
+    spec.gpos = Some(Layout::single_feature(*b"kern", vec![Lookup::one(sub)]));
+    let bytes = build(&spec);
+    let req = req_of(&[1, 2, 3], Direction::LeftToRight, None, &[]);
+    match shape_spec(&bytes, &req) {
+        Ok(out) => {
+            let adv: Vec<i32> = out.iter().map(|g| g.xa).collect();
+            let verdict = if adv == [550, 600, 600] { "opentype" } else if adv == [550, 500, 600] { "by-value" } else { "other" };
+            println!("vf2 {} {:?}", verdict, adv);
+        }
+        Err(e) => println!("vf2 other panic {}", e),
     }
 }
 
